@@ -29,6 +29,7 @@ fn main() {
     }
     let start: usize = args.get(4).map(|s| s.parse().unwrap()).unwrap_or(0);
     util::install_panic_hook();
+    util::install_logger();
     let input = BufReader::new(File::open(&args[1]).expect("open cases"));
     let mut out = OpenOptions::new()
         .create(true)
@@ -59,7 +60,12 @@ fn main() {
         // announce the case before running it, so a dying process leaves a trace
         writeln!(out, "{}", json!({"begin": my})).unwrap();
         out.flush().unwrap();
+        let logged0 =
+            util::LOG_RECORDS.load(std::sync::atomic::Ordering::Relaxed);
         let obs = dispatch(&op, &case, &reg, &scratch, my);
+        let logged = util::LOG_RECORDS
+            .load(std::sync::atomic::Ordering::Relaxed)
+            - logged0;
         let mut obs = match obs {
             Value::Object(m) => m,
             other => {
@@ -69,6 +75,9 @@ fn main() {
             }
         };
         obs.insert("idx".into(), json!(my));
+        if logged > 0 {
+            obs.insert("log_records".into(), json!(logged));
+        }
         if let Some(id) = case.get("id") {
             obs.insert("id".into(), id.clone());
         }
